@@ -527,7 +527,7 @@ func runScenario(in *input, emit func(interface{}), started *bool) (discard bool
 	// the scenario is reached only if the websocket port answers
 	okc := &http.Client{Timeout: 5 * time.Second}
 	reached := false
-	for try := 0; try < 50 && !reached; try++ {
+	for try := 0; try < 25 && !reached; try++ {
 		if resp, err := okc.Get(base + "/ok"); err == nil {
 			resp.Body.Close()
 			reached = resp.StatusCode == 200
